@@ -34,15 +34,19 @@ type module struct {
 
 // getLoading returns the module (if any) being loaded by the receiver.
 func (m *module) getLoading() *module {
+	verifPoint("module.getLoading", m)
 	m.m.Lock()
 	defer m.m.Unlock()
+	verifPoint("module.getLoading.read", m)
 	return m.loading
 }
 
 // setLoading marks the receiver as waiting on the given module.
 func (m *module) setLoading(other *module) {
+	verifPoint("module.setLoading", m)
 	m.m.Lock()
 	m.loading = other
+	verifPoint("module.setLoading.set", m)
 	m.m.Unlock()
 }
 
@@ -50,8 +54,10 @@ func (m *module) setLoading(other *module) {
 func (m *module) done(data starlark.StringDict, err error) (starlark.StringDict, error) {
 	m.data, m.err = data, err
 
+	verifPoint("module.done", m)
 	m.m.Lock()
 	m.loaded = true
+	verifPoint("module.done.set", m)
 	m.m.Unlock()
 	m.cond.Broadcast()
 
@@ -61,13 +67,16 @@ func (m *module) done(data starlark.StringDict, err error) (starlark.StringDict,
 // wait waits for the receiver to finish loading. It returns an error if the module fails
 // to load or if the wait would result in a cyclic dependency.
 func (m *module) wait(waiter *module) (starlark.StringDict, error) {
+	verifPoint("module.wait.lock", m)
 	m.m.Lock()
 	defer m.m.Unlock()
+	verifPoint("module.wait.locked", m)
 
 	if waiter != nil {
 		loading := m.loading
 		for loading != nil {
 			if loading == waiter {
+				verifPoint("module.wait.cyclic", m)
 				return nil, fmt.Errorf("cyclic dependency on %v", m.label)
 			}
 			loading = m.getLoading()
@@ -75,6 +84,7 @@ func (m *module) wait(waiter *module) (starlark.StringDict, error) {
 	}
 
 	for !m.loaded {
+		verifPoint("module.wait.block", m)
 		m.cond.Wait()
 	}
 
@@ -150,6 +160,7 @@ func (m *module) loadModule(proj *Project, rawLabel string) (starlark.StringDict
 
 // load executes the module's code.
 func (m *module) load(proj *Project) (starlark.StringDict, error) {
+	verifPoint("module.load", m)
 	proj.events.ModuleLoading(m.label)
 
 	t, builtins, err := m.env(proj)
